@@ -194,8 +194,11 @@ class StmtMixin:
             return
         if isinstance(base, VNode):
             # value semantics: functional update of the local binding (alias effects not modelled)
-            if not isinstance(tgt_node.value, ast.Name):
-                raise OutOfReach('field write on a Node that is not a local name')
+            inner = tgt_node.value
+            if not isinstance(inner, ast.Name):
+                # x.left.right = v  ==  functional update of x along the path of fields (value semantics)
+                if not (isinstance(inner, ast.Attribute) and inner.attr in ('left', 'right')):
+                    raise OutOfReach('field write on a Node that is not reached from a local name through left / right')
             N = ctx.sorts.Node
             ctx.oblige(path, 'defined', f'store to .{name} on None', base.t != N.NNil, ln)
             ctx.oblige(path, 'frame', f'write to Node.{name} requires an owned node (would modify the argument)', N.owned(base.t), ln)
@@ -209,7 +212,12 @@ class StmtMixin:
                 d = nv.t
             else:
                 raise OutOfReach(f'Node.{name} store')
-            path.env[tgt_node.value.id] = VNode(N.NNode(d, l, r, N.owned(base.t)))
+            updated = VNode(N.NNode(d, l, r, N.owned(base.t)))
+            if isinstance(inner, ast.Name):
+                path.env[inner.id] = updated
+            else:
+                outer = self.ev(inner.value, path)
+                self.set_attr(outer, inner.attr, updated, path, inner, ln)
             ctx.assumptions.add('Node field writes use value semantics: effects through aliases of the written node are not modelled')
             return
         raise OutOfReach(f'attribute store on {base.kind}')
@@ -396,6 +404,8 @@ class StmtMixin:
                 if p.done or p.exc is not None or p.heap != heap_before:
                     raise OutOfReach(f'loop over a library iterable at line {st.lineno} with effects')
             return [path]
+        if isinstance(src, VElemList):
+            return self.for_elemlist(st, src, path)
         if self.is_concrete_iter(src):
             live = [path]
             done = []
@@ -622,6 +632,65 @@ class StmtMixin:
 
     def invariant_for(self, st, src, path, inv):
         raise OutOfReach('for loop with explicit invariant not supported yet')
+
+    # ---- for loops over the children of a document element: explicit invariant over the not-yet-visited rest ----
+    def for_elemlist(self, st, src, path):
+        """for x in <cons list>: body, with the invariant inv_N(..., _rest) of the sidecar contract (_rest: the elements not yet
+        visited).  Rule: I(L) on entry; for arbitrary state with I(r): r = x :: r' and body gives I(r'); after the loop I([])."""
+        ctx = self.ctx
+        L = ctx.sorts.ElemList
+        inv = self.loop_invariant(st)
+        if inv is None:
+            raise OutOfReach(f'for loop over document elements at line {st.lineno} needs an invariant (inv_N over _rest) in the sidecar')
+        inv_fn, _ = inv
+        assigned = set()
+        for n in ast.walk(ast.Module(body=st.body, type_ignores=[])):
+            if isinstance(n, ast.Name) and isinstance(n.ctx, ast.Store):
+                assigned.add(n.id)
+            if isinstance(n, ast.Call) and isinstance(n.func, ast.Attribute) and isinstance(n.func.value, ast.Name) \
+                    and n.func.attr in ('append', 'extend', 'pop', 'add', 'insert'):
+                assigned.add(n.func.value.id)
+            if isinstance(n, (ast.Return, ast.Break, ast.Continue)):
+                raise OutOfReach('return/break/continue inside a loop over document elements')
+        for n in ast.walk(st.target):
+            if isinstance(n, ast.Name):
+                assigned.add(n.id)
+
+        def env_with(p, rest):
+            e = self.clause_env(p)
+            e['_rest'] = VElemList(rest)
+            return e
+        ctx.oblige(path, 'inv_init', f'loop invariant holds on entry (line {st.lineno})',
+                   self.eval_clause(ctx.cur_contract, inv_fn, env_with(path, src.t), path), st.lineno)
+        heap_before = dict(path.heap)
+        for a in sorted(assigned):
+            cur = path.env.get(a)
+            if cur is None or cur is UNBOUND or isinstance(cur, (MaybeUnbound, LoopTemp)):
+                path.env[a] = UNBOUND
+                continue
+            if not hasattr(cur, 't') or cur.t is None:
+                raise OutOfReach(f'cannot havoc loop variable {a} of kind {cur.kind}')
+            path.env[a] = self.fresh_like(a, cur)
+        rest = ctx.fresh('_rest', L)
+        path.assume(self.eval_clause(ctx.cur_contract, inv_fn, env_with(path, rest), path))
+        body_path = path.fork(L.is_ECons(rest))
+        body_path.env = dict(path.env)
+        self.bind_target(st.target, VElem(L.head(rest)), body_path)
+        for p in self.exec_block(st.body, body_path):
+            if p.exc is not None:
+                if not self.exception_allowed(p.exc[0]):
+                    ctx.oblige(p, 'noraise', f'loop body raises {p.exc[0]}', z3.BoolVal(False), st.lineno)
+                continue
+            if p.heap != heap_before:
+                raise OutOfReach('heap effects inside a loop over document elements')
+            ctx.oblige(p, 'inv_preserve', f'loop invariant preserved (line {st.lineno})',
+                       self.eval_clause(ctx.cur_contract, inv_fn, env_with(p, L.tail(rest)), p), st.lineno)
+        ctx.assumptions.add(f'termination of the loop at line {st.lineno} of {ctx.cur_fid}: the list of children is finite (datatype value)')
+        path.assume(rest == L.ENil)
+        for n in ast.walk(st.target):
+            if isinstance(n, ast.Name):
+                path.env[n.id] = UNBOUND       # the loop variable is not used after these loops (kept out of the post-state)
+        return [path]
 
     # ---- while loops with explicit invariants ---------------------------------------------------
     def st_While(self, st, path):
